@@ -9,7 +9,7 @@ from .c06 import empty_dump
 
 ID = "C16"
 LEVEL = "fault_enumeration"
-RUNS = (4000, 100000)
+RUNS = (4000, 50000)
 RULE = ("one seeded small tree (or single file) read through one of the eight read entry points while a seeded combination of "
         "{required owner, required group, no symlinks} is in force; exactly one consulted file is made offending, at EVERY position "
         "in turn and for EVERY active rule (complete single-fault enumeration per tree), plus one plan with seeded independent "
